@@ -152,6 +152,9 @@ def run(ctx):
         if "storestream" in rp:
             recs, out, rc = go({"scenarios": []}, "confirm-stream", test="^TestVerifFanoutStoreStream$")
             return any(r.get("k") == "mismatch" and r.get("replay", {}).get("storestream") == rp["storestream"] for r in recs)
+        if "limitoffset" in rp:
+            recs, out, rc = go({"scenarios": []}, "confirm-limitoffset", test="^TestVerifFanoutLimitOffset$")
+            return any(r.get("k") == "mismatch" and r.get("replay", {}).get("limitoffset") for r in recs)
         sc = dict(rp["scenario"])
         inp = base_input([sc])
         inp["confirm"] = True
@@ -168,6 +171,9 @@ def run(ctx):
         elif "storestream" in rp:
             recs, out, rc = go({"scenarios": []}, "replay-stream", test="^TestVerifFanoutStoreStream$")
             ctx.process(recs, out, rc, "TestVerifFanoutStoreStream", None)
+        elif "limitoffset" in rp:
+            recs, out, rc = go({"scenarios": []}, "replay-limitoffset", test="^TestVerifFanoutLimitOffset$")
+            ctx.process(recs, out, rc, "TestVerifFanoutLimitOffset", None)
         else:
             inp = base_input([dict(rp["scenario"])])
             inp["confirm"] = True
@@ -281,8 +287,8 @@ def run(ctx):
 
     # ------------------------------------------------------------------ 3. real code
     inp = base_input(chosen, reps=1)
-    recs, out, rc = go(inp, "scenarios", test="^TestVerifFanout(RPC|StoreStream)?$", timeout=ctx.pick(1500, 5400))
-    for t in ("TestVerifFanoutRPC", "TestVerifFanoutStoreStream"):
+    recs, out, rc = go(inp, "scenarios", test="^TestVerifFanout(RPC|StoreStream|LimitOffset)?$", timeout=ctx.pick(1500, 5400))
+    for t in ("TestVerifFanoutRPC", "TestVerifFanoutStoreStream", "TestVerifFanoutLimitOffset"):
         if not any(r.get("k") == "done" and r.get("test") == t for r in recs) and rc == 0:
             raise Infra("driver %s did not complete" % t)
     done = ctx.process(recs, out, rc, "TestVerifFanout", confirm)
